@@ -189,6 +189,64 @@ def _envelope_walk(run):
               message="SgxQeCertData no longer reads its data through SgxQeAuthData's constructor / total size")
 
 
+def _handshake(run, PV, DA):
+    """R2h: the secure-channel handshake the endorsement commands run under."""
+    P, A = run.P, run.A
+    run.rule("R2h", "Handshake (BOLOS secure channel, as the device checks it): IDENTIFY | 0 | 0 | len | TARGET_ID; NONCE | 0 | 0 | 8 | n with n = os.urandom(NONCE_LENGTH) and the "
+             "device nonce d = answer[4:12]; the master certificate signs ROLE.MASTER | master public key; the ephemeral certificate signs ROLE.EPHEMERAL | n | d | ephemeral "
+             "public key - host nonce first - both with the master key, and each is sent as SEND_KEY | role | 0 | len(cert) | len(pub) | pub | len(sig) | sig.")
+    fn = P.method(DA, "handshake")
+    g = A.cfg(fn, DA)
+    L = Layout(lambda e: try_fold(P, e, fn, DA))
+    mk = fn.params[1]
+    roles = {}
+    for nm_, ds_ in PV.defs(fn, DA).items():
+        for d_ in ds_:
+            if d_.value is None:
+                continue
+            t = _strip(norm(d_.value))
+            if t == "os.urandom(self.NONCE_LENGTH)":
+                roles["nonce"] = nm_
+            if t.startswith("self._send_command(self.CMD.NONCE,"):
+                roles["answer"] = nm_
+    rets = [n for n in A.own_nodes(fn) if isinstance(n, ast.Return) and isinstance(n.value, ast.Name)]
+    if len(rets) == 1:
+        roles["eph"] = rets[0].value.id
+    run.require(set(roles) == {"nonce", "answer", "eph"}, f"DongleAdmin.handshake: nonce / NONCE answer / ephemeral key not identified ({sorted(roles)})")
+    n_, a_, e_ = roles["nonce"], roles["answer"], roles["eph"]
+    stop = (n_, a_, e_, mk)
+    signs = []
+    for c in find_calls(A, fn, "ecdsa_sign"):
+        for cn in g.nodes_of(c):
+            signs.append((norm(c.func.value), sorted(L.canon(x) for x in PV.expand_consistent(fn, DA, c.args[0], cn, stop=stop))))
+    want_signs = [(mk, [f"bytes(u8(1) | {mk}.pubkey.serialize(compressed=False))"]),
+                  (mk, [f"bytes(u8(17) | {n_} | {a_}[4:12] | {e_}.pubkey.serialize(compressed=False))"])]
+    rl = P.enum_members(P.cls("admin.dongle_admin._Role"))
+    run.check("R2h", rl["MASTER"].value == 1 and rl["EPHEMERAL"].value == 0x11, "role bytes (master 0x01, ephemeral 0x11)", key="_Role|handshake-values", where="middleware/admin/dongle_admin.py",
+              message=f"_Role MASTER / EPHEMERAL changed: {rl}")
+    run.check("R2h", signs == want_signs, "what the master key signs for the two certificates", key="handshake|signed-data", where=fn.loc(),
+              message=f"handshake signs {signs}; expected {want_signs}: the device recomputes these bytes (host nonce before device nonce) and refuses the channel otherwise - "
+                      "nothing could be gathered from a genuine device")
+    sends = []
+    for c, cmd in send_sites(run, fn):
+        for cn in g.nodes_of(c):
+            sends.append((cmd.name if isinstance(cmd, EnumMember) else "?", sorted(L.canon(x) for x in PV.expand_consistent(fn, DA, c.args[1], cn, stop=stop))))
+
+    def cert(sub, role, key, extra=""):
+        # the expected message, written out and put through the same layout normaliser
+        pub = f"{key}.pubkey.serialize(compressed=False)"
+        ts = f"bytes([self.ROLE.{role}]) + {extra}{pub}"
+        sig = f"{mk}.ecdsa_serialize({mk}.ecdsa_sign(bytes({ts})))"
+        crt = f"bytes([len({pub})]) + {pub} + bytes([len({sig})]) + {sig}"
+        return [L.canon(f"bytes([self.SUBCMD.{sub}, 0, len({crt})]) + {crt}")]
+    tid = P.class_const(DA, "TARGET_ID")
+    want_sends = [("IDENTIFY", ["u8(0) | u8(0) | u8(%d) | %s" % (len(tid), " | ".join(f"u8({b})" for b in tid))]),
+                  ("NONCE", [f"u8(0) | u8(0) | u8({P.class_const(DA, 'NONCE_LENGTH')}) | {n_}"]),
+                  ("SEND_KEY", cert("SEND_KEY_MASTER", "MASTER", mk)), ("SEND_KEY", cert("SEND_KEY_EPHEMERAL", "EPHEMERAL", e_, f"{n_} + {a_}[4:12] + "))]
+    run.check("R2h", sends == want_sends, "the four exchanges of the handshake", key="handshake|exchanges", where=fn.loc(),
+              message=f"handshake sends {[(a, [x[:120] for x in b]) for a, b in sends]}; expected {[(a, [x[:120] for x in b]) for a, b in want_sends]}")
+
+
 def _pem_chain(run, PV):
     """R3c: the certificates taken out of the QE certification data."""
     P, A = run.P, run.A
@@ -858,6 +916,7 @@ def run(run):
     gs = A.cfg(se, DA)
     # (which bytes of the answers become message / pubkey / signature: rule R2t)
     _endorsement_parse(run, PV, DA, gd, gg, se, gs)
+    _handshake(run, PV, DA)
     _envelope_walk(run)
     _pem_chain(run, PV)
     roles = P.enum_members(P.cls("admin.dongle_admin._Role"))
